@@ -110,6 +110,7 @@ pub fn check_schedule(log: &RunLog, obs: &mut Obs) -> CheckResult {
                 saw_resp_since_send = false;
                 prev_send_reissued = false;
             }
+            Step::Check { .. } => {}
         }
     }
     if resp_between_sends {
@@ -143,8 +144,35 @@ pub fn check_timing(log: &RunLog, obs: &mut Obs) -> CheckResult {
     let slack = log.spec.send_cost_ns * (1 + reissues) + log.spec.recv_cost_ns;
     let mut near_threshold = false;
     let mut early = false;
+    // set when the policy was satisfied at the end of a loop iteration: the round must be
+    // published right there
+    let mut due: Option<u64> = None;
+    let fatal = matches!(log.result, Some(Err(_)));
     for st in &steps {
+        if let Some(t) = due {
+            if !matches!(st, Step::Publish { .. }) {
+                vfail!(
+                    "not-published-when-due",
+                    "round {}: at offset {} ns the policy was satisfied (target answered={}, duration {} vs min {} / max {}, {} ns since last response vs grace {}) but the round stayed open",
+                    log.rounds.iter().filter(|r| r.t_ns <= t).count(),
+                    t - log.start_ns,
+                    book.target_found,
+                    t - start,
+                    cfg.min_round_ns,
+                    cfg.max_round_ns,
+                    book.last_recv_ns.map_or(-1, |l| (t - l) as i128),
+                    cfg.grace_ns
+                );
+            }
+        }
         match st {
+            Step::Check { t_ns } => {
+                let d = t_ns - start;
+                let grace_ok = book.last_recv_ns.is_some_and(|l| t_ns - l > cfg.grace_ns);
+                if d > cfg.max_round_ns || (book.target_found && d > cfg.min_round_ns && grace_ok) {
+                    due = Some(*t_ns);
+                }
+            }
             Step::Send { t_ns, round, .. } => {
                 vensure!(
                     *t_ns >= start,
@@ -206,7 +234,15 @@ pub fn check_timing(log: &RunLog, obs: &mut Obs) -> CheckResult {
                 }
                 start = *t_ns;
                 book.new_round();
+                due = None;
             }
+        }
+    }
+    // the run ends after the last publish; a policy satisfied at the very last check of a run
+    // that ended with a fatal error is not an omission
+    if let (Some(t), false) = (due, fatal) {
+        if log.rounds.len() < cfg.max_rounds as usize {
+            vfail!("not-published-when-due", "the policy was satisfied at offset {} ns but no round was published", t - log.start_ns);
         }
     }
     if near_threshold {
@@ -258,6 +294,13 @@ pub fn check_table(log: &RunLog, truth: &Truth, obs: &mut Obs) -> CheckResult {
             }
         }
         highest = highest.max(r.largest_ttl);
+        let max_probed = (1..=255usize).rev().find(|t| probed[*t]).unwrap_or(0);
+        vensure!(
+            usize::from(r.largest_ttl) <= max_probed,
+            "beyond-probed",
+            "round {k}: reported path length {} exceeds the highest TTL ever probed ({max_probed})",
+            r.largest_ttl
+        );
         let table = match &log.tables[k] {
             Ok(t) => t,
             Err(p) => vfail!(panic_sig(p), "querying the hop table after round {k} panicked: {p}"),
